@@ -97,7 +97,7 @@ pub async fn run_case(case: &Case, window: Duration, max: usize) -> Obs {
             if handle.data(ch, CryptoVec::from_slice(&c)).await.is_err() {
                 return;
             }
-            tokio::time::sleep(Duration::from_millis(2)).await;
+            tokio::time::sleep(Duration::from_millis(crate::frame::gap_ms())).await;
         }
         match end {
             End::Quiet => tokio::time::sleep(Duration::from_secs(3600)).await,
